@@ -129,7 +129,16 @@ struct Runner
             auto with_buffer = [&](auto& strm)
             {
                 if (buffer == 0) { ctpg::buffers::string_view_buffer b(sv); base = sv.data(); take(p.parse(opts, b, strm)); }
-                else if (buffer == 1) { ctpg::buffers::string_buffer b{std::string(in.text)}; base = b.get_view(b.begin(), b.end()).data(); take(p.parse(opts, b, strm)); }
+                else if (buffer == 1)
+                {
+                    // a string_buffer is a value: the parse runs on a copy of a moved buffer whose originals have been overwritten and destroyed
+                    auto* b0 = new ctpg::buffers::string_buffer(std::string(in.text));
+                    auto* b1 = new ctpg::buffers::string_buffer(std::move(*b0));
+                    ctpg::buffers::string_buffer b(*b1);
+                    *b0 = ctpg::buffers::string_buffer("#overwritten#"); *b1 = ctpg::buffers::string_buffer("#overwritten-too#-----------------------------");
+                    delete b0; delete b1;
+                    base = b.get_view(b.begin(), b.end()).data(); take(p.parse(opts, b, strm));
+                }
                 else
                 {
                     vb::CheckedBuffer b(in.text); base = b.s.data(); o.checked = true;
@@ -237,7 +246,7 @@ static vj::Value fail_detail(size_t k, const gg::Input& in)
 }
 
 // shared by every grammar property: generation
-static GCase gen_case(Choice& ch, gg::Flavor fl, size_t n_random, bool bad_chars, bool options)
+static GCase gen_case(Choice& ch, gg::Flavor fl, size_t n_random, bool bad_chars, bool options, bool deep = false)
 {
     GCase c;
     c.tmpl = ch.chance(2, 5) ? 1 : 0;
@@ -260,6 +269,13 @@ static GCase gen_case(Choice& ch, gg::Flavor fl, size_t n_random, bool bad_chars
     }
     if (options)
         for (auto& in : c.inputs) { if (rng.chance(1, 6)) in.skip_nl = false; if (rng.chance(1, 10)) in.skip_ws = false; }
+    if (deep && ch.chance(1, 4))
+    {
+        // one or two very deep sentences: the parse stacks grow past their initial reservation of 1024 entries
+        std::vector<int> toks;
+        size_t n = 1030 + ch.below(4) * 520;
+        if (gg::deep_sentence(c.g, an, n, rng, toks)) { c.inputs.push_back(gg::Input{gg::render(toks, nullptr)}); if (!toks.empty() && rng.chance(1, 2)) { toks.resize(toks.size() - 1 - rng.below(uint32_t(std::min<size_t>(toks.size() - 1, 3)))); c.inputs.push_back(gg::Input{gg::render(toks, nullptr)}); } }
+    }
     return c;
 }
 
